@@ -2,7 +2,8 @@
 //! abstract operations over small integer ids; see DESIGN.md appendix A and coq/theories/Tower.v.
 use std::collections::HashMap;
 use std::path::PathBuf;
-use std::sync::{Arc, Condvar, Mutex};
+use std::sync::Arc;
+use teos::verif_sync::{Condvar, Mutex};
 
 use bitcoin::block::Block;
 use bitcoin::consensus;
